@@ -181,6 +181,9 @@ Proof.
               (h265_ranges (snd p), uses_inter_rps (snd p),
                vobs_eqb (go_h265_obs (nal_of_bits (fst p))) None))
             (emit std_h265_sps_i rec_d30 env0) = Some (true, true, true)) by (vm_compute; reflexivity).
-  rewrite E in H. cbn [option_map fst snd] in H. inversion H as [[H1 H2 H3]].
+  rewrite E in H. cbn [option_map fst snd] in H.
+  assert (H1 : h265_ranges a = true) by congruence.
+  assert (H2 : uses_inter_rps a = true) by congruence.
+  assert (H3 : vobs_eqb (go_h265_obs (nal_of_bits b)) None = true) by congruence.
   repeat split; auto. apply vobs_eqb_eq. exact H3.
 Qed.
